@@ -88,9 +88,9 @@ PROPS['C11'] = {
     'packages': ALLPK,
     'functions': [('tree.Compare$1', {'match': [r'^ownership', r'^post\.done', r'^nilchan', r'^sendclosed', r'^send\.stats\.error', r'^inv\..*L1']}),
                   ('tree.Compare$2', {}),
-                  ('tree.CompareWeighted$1', {'match': [r'^ownership', r'^post\.done', r'^nilchan', r'^sendclosed', r'^send\.stats\.error', r'^inv\..*L1']}),
+                  ('tree.CompareWeighted$1', {'match': [r'^ownership', r'^post\.done', r'^nilchan', r'^sendclosed', r'^send\.stats\.error', r'^inv\..*L1', r'^callsite\..*(PutEdgeValue|Value@L)']}),
                   ('tree.CompareWeighted$2', {}),
-                  ('support.FBP$1', {'match': [r'^ownership', r'^post\.done', r'^nilchan', r'^sendclosed', r'^return', r'^inv\..*L1']}),
+                  ('support.FBP$1', {'match': [r'^ownership', r'^post\.done', r'^nilchan', r'^sendclosed', r'^return', r'^inv\..*L1', r'^callsite\..*@L1']}),
                   ('support.FBP$2', {}),
                   ('support.TBE$1', {}),
                   ('support.TBE$2', {'match': [r'^ownership', r'^post\.done', r'^nilchan', r'^inv']}),
